@@ -69,7 +69,13 @@ def r12a(ctx):
     ok, why = _all_defs_cast(defs, arg, lo, model=model, mod=rbc.module, cls=rbc)
     (ctx.ok if ok else ctx.bad)("_shuffle.RearrangeByColumn._lower:cast-dtype", rbc.module.loc(ctor), "every definition of the cast dtype goes through _is_numeric_cast_type" if ok else f"cast dtype `{ast.unparse(arg)}` can come from `{why}` without consulting _is_numeric_cast_type")
     # (c) same versions of frame / partitioning_index
-    watched = [p for p in ("frame", "partitioning_index") if any(isinstance(x, ast.Name) and x.id == p for a in ctor.args for x in ast.walk(a))]
+    # the locals that hold the frame and the key list (identified by what they are first assigned, not by name)
+    from sa.rules.util import locals_defined_by
+
+    held = locals_defined_by(lo, "self.frame") + locals_defined_by(lo, "self.partitioning_index")
+    watched = [p for p in dict.fromkeys(held) if any(isinstance(x, ast.Name) and x.id == p for a in ctor.args for x in ast.walk(a))]
+    if not watched:
+        raise AnalysisError("anchor vanished: locals holding self.frame / self.partitioning_index in RearrangeByColumn._lower")
     at_ctor = {w: {id(d.stmt) for d in defs.reaching(w, ctor)} for w in watched}
     problems = []
     if isinstance(arg, ast.Name):
